@@ -79,3 +79,5 @@ pub struct ColumnDump {
 	/// btree columns: (root address, depth)
 	pub btree: Option<(u64, u32)>,
 }
+
+pub use crate::index::verif_find_entry;
